@@ -267,6 +267,12 @@ func sortedHeapKeys(m map[string]*Term) []string {
 // mergeValues merges two values of the same shape under condition c (c ? a : b).
 func (x *Exec) mergeValues(c *Term, a, b Value, hint string) Value {
 	switch av := a.(type) {
+	case iterBox:
+		// the ghost handle of a map iteration: identical on both branches of anything inside the loop body
+		if bv, ok := b.(iterBox); ok && bv.it == av.it {
+			return av
+		}
+		return UnknownV{}
 	case Scalar:
 		bv, ok := b.(Scalar)
 		if !ok || !av.T.S.Eq(bv.T.S) {
